@@ -78,6 +78,14 @@ def gen(tier, seed, boost=False):
         yield from _index_cases(rows, 'exhaustive', full, fullbase)
     for rows in G.tables_upto(2, 2):
         yield from _name_cases(rows, 'exhaustive-names')
+    # histories: by-name call, rename through the setters (permuted and fresh names), by-name call again
+    rh = random.Random(seed * 7919 + 11)
+    for rows in list(G.tables_upto(2, 2)) + [G.random_table(rh, 4, 4, nmin=2, mmin=2) for _ in range(40 if tier == 'quick' else 400)]:
+        n, m = len(rows), len(rows[0])
+        for names0 in ((OBJ[:n][::-1], ATT[:m][::-1]), (['x%d' % i for i in range(n)], ['y%d' % j for j in range(m)])):
+            for c in _name_cases(rows, 'history-names', rh):
+                c['names0'] = [list(names0[0]), list(names0[1])]
+                yield c
     if tier == 'thorough' or boost:
         def srt(k):
             out = []
@@ -86,9 +94,11 @@ def gen(tier, seed, boost=False):
                 if len(s) > 1:
                     out.append(s[::-1])
             return out
-        for rows in G.tables_upto(4, 4, cells=12):
+        for k_t, rows in enumerate(G.tables_upto(4, 4, cells=12)):
             if len(rows) <= 3 and len(rows[0]) <= 3:
                 continue
+            if tier != 'thorough' and k_t % 12:
+                continue        # a boosted quick run (drifted source / failed proof) samples the larger scope
             yield from _index_cases(rows, 'exhaustive-large', srt, lambda k: [None] + srt(k))
     # seeded random larger cases
     nrand = 300 if tier == 'quick' else 6000
@@ -110,7 +120,21 @@ def gen(tier, seed, boost=False):
 
 
 def impl(c):
-    K = make_context(c['rows'], c['be'], c.get('objs'), c.get('attrs'))
+    if c.get('names0'):
+        # history stream: the context is first used by name under other names, then renamed through the public setters
+        from fcapy.context import FormalContext
+        o0, a0 = c['names0']
+        K = FormalContext(data=[[bool(v) for v in r] for r in c['rows']], object_names=list(o0), attribute_names=list(a0),
+                          backend=c['be'])
+        try:
+            K.extension(list(a0[:1]))
+            K.intention(list(o0[:1]))
+        except Exception:
+            pass
+        K.object_names = list(c['objs'])
+        K.attribute_names = list(c['attrs'])
+    else:
+        K = make_context(c['rows'], c['be'], c.get('objs'), c.get('attrs'))
     try:
         if c.get('names'):
             if c['kind'] == 'ext':
@@ -155,7 +179,7 @@ def nontrivial(c):
 
 
 def key(c):
-    return [c['rows'], c['be'], c['kind'], c['sel'], c['base'], c.get('mono'), bool(c.get('names'))]
+    return [c['rows'], c['be'], c['kind'], c['sel'], c['base'], c.get('mono'), bool(c.get('names')), c.get('names0')]
 
 
 def branch(c, io, rep):
